@@ -74,6 +74,7 @@ func recordConcWrite(args []string) error {
 				ng = []int{8, 16, 24}[i%3]
 			}
 			start := make(chan struct{})
+			reuseMaps := (c.i/2+c.i)%2 == 1
 			rows := make([]vx.Row, n)
 			for k := range rows {
 				row := vx.Row{{1, 1 + rng.Intn(4)}, {3, k + 1}}
@@ -93,12 +94,28 @@ func recordConcWrite(args []string) error {
 				go func(g int) {
 					defer wg.Done()
 					<-start
+					// every other configuration: each goroutine fills one map of its own again and again (the map is
+					// the caller's; AddRow must be done with it when it returns)
+					own := map[string]string{}
 					for k := g; k < n; k += ng {
-						id, err := wr.AddRow(d.RowMap(rows[k]))
+						m := d.RowMap(rows[k])
+						if reuseMaps {
+							for key := range own {
+								delete(own, key)
+							}
+							for key, v := range m {
+								own[key] = v
+							}
+							m = own
+						}
+						id, err := wr.AddRow(m)
 						if err != nil {
 							id = 1 << 30
 						}
 						res[g] = append(res[g], item{int(id), rows[k]})
+					}
+					for key := range own {
+						own[key] = "overwritten after AddRow returned"
 					}
 				}(g)
 			}
